@@ -2,9 +2,10 @@
    list, prod, unit, sumbool map to OCaml's; Z, N, positive, nat, byte stay the extracted
    inductive types.  No Extract Constant. *)
 From Coq Require Import Extraction ExtrOcamlBasic.
-From GV Require Import Base.Bytes Base.Hex Base.LE Vedirect.Frame.
+From GV Require Import Base.Bytes Base.Hex Base.LE Vedirect.Frame Vedirect.Port Vedirect.Driver.
 Extraction Language OCaml.
 Set Extraction KeepSingleton.
 Extraction "gvcore.ml"
   bz zb
-  tx_frame tx_wellformed C03_frame_ok parse_tx.
+  tx_frame tx_wellformed C03_frame_ok parse_tx valid_responseb
+  vd_new run_calls le_encode le_encode_signed checksum hex_upper.
